@@ -61,6 +61,11 @@ def gen_history(rng, n):
             e = gen.gen_event(rng, known_ids=known, authors=gen.AUTHORS[:4],
                               kinds=[0, 1, 3, 5, 7, 10002, 30000, 30001, 20000, 29999, 40000],
                               times=gen.TIMES[:9])
+            if rng.random() < 0.12:
+                # JSON numbers / booleans / null as the value of an indexable tag: indexed under their text form, which
+                # must be the same when the record is read back (0.1 and 48.8566 are not exact in 32-bit floats)
+                e["tags"] = e["tags"] + [[rng.choice(["v", "g", "x", "expiration"]),
+                                          rng.choice([0.1, 48.8566, 1.5, 0.25, 7, 2 ** 40, True, None, 1e21, 1e-7, -0.0, 3.0])]]
             events.append(e)
             ops.append(("add", e))
         elif r < 0.58:
@@ -198,7 +203,8 @@ def run(report, tier, seed):
     report.coverage["rule"] = (
         "histories of add / duplicate add / replaceable versions / kind-5 deletions (own, foreign, unknown, "
         "malformed refs) / del / GC pass (+ its queued deletions) / unstorable events (key > 511 bytes, out-of-range "
-        "integers) over 4 authors, boundary kinds, timestamps and ids; after every task the full LMDB key list is "
+        "integers) over 4 authors, boundary kinds, timestamps and ids, tag values that are JSON numbers (incl. doubles that are "
+        "not exact as 32-bit floats), booleans or null; after every task the full LMDB key list is "
         "compared with the Lean model and the coherence predicate is evaluated on the real keyspace; non-trivial = "
         "more than 3 tasks or an aborted transaction")
     report.assumptions += [
